@@ -700,7 +700,14 @@ func genKey(t *rapid.T, S int) KeySpec {
 	if rapid.IntRange(0, 9).Draw(t, "empty") == 0 {
 		return KeySpec{Empty: true, Var: rapid.IntRange(0, 1).Draw(t, "ev")}
 	}
-	return KeySpec{Class: rapid.IntRange(0, maxClass-1).Draw(t, "class"), Var: rapid.IntRange(0, 2).Draw(t, "var")}
+	class := rapid.IntRange(0, maxClass-1).Draw(t, "class")
+	if S > 64 {
+		// stripe numbers that agree modulo a power of two (8, 32, 64, 128) but differ: any
+		// shortcut that identifies stripes by fewer bits than the table has confuses them
+		class += rapid.SampledFrom([]int{0, 0, 8, 32, 64, 64, 128, 192}).Draw(t, "classHi")
+		class %= S
+	}
+	return KeySpec{Class: class, Var: rapid.IntRange(0, 2).Draw(t, "var")}
 }
 
 func genWorkers(t *rapid.T, S int, free bool) [][]Request {
@@ -731,7 +738,7 @@ func genWorkers(t *rapid.T, S int, free bool) [][]Request {
 	return ws
 }
 
-var stripeChoices = []int{1, 2, 7, 3, 0, -5, 64}
+var stripeChoices = []int{1, 2, 7, 3, 0, -5, 64, 0, 512, 512} // 512 = what raftstore/kv configures
 
 // The hand-written schedules are mixed into the generated stream (about 1 case in 16)
 // instead of being run by the parent process: a double unlock of a sync.Mutex is a fatal
@@ -847,7 +854,7 @@ var (
 func TestCheck(t *testing.T) {
 	s := &pbt.Suite{ID: "C20", Level: "exploration",
 		Rule: "Cases store key ROLES (stripe class, variant, empty); concrete bytes with the wanted stripe are found by search over kv.MemHash at run time. " +
-			"gen: stripes from {1,2,3,7,64,default 256 (0 and negative)}, 2-6 workers with 1-3 requests of 0-5 keys drawn from a 1-5 key universe (duplicates, empty keys, different keys colliding on one stripe), Release once or twice. " +
+			"gen: stripes from {1,2,3,7,64,default 256 (0 and negative),512}; with more than 64 stripes key classes also land on stripes that agree modulo 8/32/64/128, 2-6 workers with 1-3 requests of 0-5 keys drawn from a 1-5 key universe (duplicates, empty keys, different keys colliding on one stripe), Release once or twice. " +
 			"About 1 case in 16 is one of the hand-written schedules (crossing key orders behind two holders, duplicate/colliding/empty keys in one request, late second Release with a third waiter, requests locking nothing). " +
 			"spec sched: a drawn step list decides who calls Acquire / Release / a late second Release next (Acquire in a goroutine, the harness waits until it returned or is known to wait), then drains. " +
 			"spec free: the workers run their lists for 1-40 rounds on real threads behind a start barrier, optionally re-releasing the previous guard while holding the next. " +
